@@ -44,6 +44,7 @@ pub const RC_FLAGS: [&str; 6] = ["signature", "runtime_visible_annotations", "ru
 pub fn has(m: &Mask, f: &str) -> bool { m.iter().any(|x| *x == f) }
 
 pub fn class_interests(m: &Mask) -> ClassInterests {
+	if m.is_empty() { return ClassInterests::none(); }
 	ClassInterests {
 		inner_classes: has(m, "inner_classes"), enclosing_method: has(m, "enclosing_method"), signature: has(m, "signature"),
 		source_file: has(m, "source_file"), source_debug_extension: has(m, "source_debug_extension"),
@@ -55,6 +56,7 @@ pub fn class_interests(m: &Mask) -> ClassInterests {
 	}
 }
 pub fn method_interests(m: &Mask) -> MethodInterests {
+	if m.is_empty() { return MethodInterests::none(); }
 	MethodInterests {
 		code: has(m, "code"), exceptions: has(m, "exceptions"), signature: has(m, "signature"),
 		runtime_visible_annotations: has(m, "runtime_visible_annotations"), runtime_invisible_annotations: has(m, "runtime_invisible_annotations"),
@@ -65,6 +67,7 @@ pub fn method_interests(m: &Mask) -> MethodInterests {
 	}
 }
 pub fn code_interests(m: &Mask) -> CodeInterests {
+	if m.is_empty() { return CodeInterests::none(); }
 	CodeInterests {
 		stack_map_table: has(m, "stack_map_table"), line_number_table: has(m, "line_number_table"),
 		local_variable_table: has(m, "local_variable_table"), local_variable_type_table: has(m, "local_variable_type_table"),
@@ -97,6 +100,19 @@ impl VDesc {
 #[derive(Clone, Debug, PartialEq)]
 pub struct Insn { pub label: bool, pub frame: Option<String>, pub text: String }
 
+/// where a label sits: at the k-th instruction the visitor was shown, after the last one, or nowhere the visitor saw
+#[derive(Clone, Copy, Debug, PartialEq)]
+pub enum Pos { At(usize), End, Unknown }
+/// one row of a table handed to the code visitor, as numbers (for the comparison with the model's parsed rows):
+/// strings by a checksum of their modified-UTF-8 bytes
+#[derive(Clone, Debug, PartialEq)]
+pub enum RowN {
+	Line(Pos, u16),
+	Var { kind: u8, start: Pos, end: Pos, name: u64, desc: u64, index: u16 },
+	Exc(Pos, Pos, Pos, bool),
+}
+pub fn cksum(bytes: &[u8]) -> u64 { bytes.iter().fold(7u64, |a, &b| (a * 31 + b as u64 + 1) % (1 << 31)) }
+
 #[derive(Clone, Debug, PartialEq)]
 pub enum Ev {
 	/// a visit caused by one attribute; raw = the bytes handed over verbatim (unknown attributes, SourceDebugExtension)
@@ -105,9 +121,9 @@ pub enum Ev {
 	/// a table collected over the attribute loop and visited after it; one item per entry with the
 	/// attribute kind it comes from (0 LineNumberTable, 1 LocalVariableTable, 2 LocalVariableTypeTable);
 	/// `optional` is only set by the projection oracle (an empty table may or may not be visited)
-	Deferred { slot: &'static str, items: Vec<(u8, String)>, optional: bool },
+	Deferred { slot: &'static str, items: Vec<(u8, String)>, optional: bool, rows: Vec<RowN> },
 	CodeDeclined,
-	Code { max_stack: u16, max_locals: u16, insns: Vec<Insn>, last_label: bool, exc: String, es: Vec<Ev> },
+	Code { max_stack: u16, max_locals: u16, insns: Vec<Insn>, last_label: bool, exc: String, exc_rows: Vec<RowN>, es: Vec<Ev> },
 	Rc { hdr: String, es: Option<Vec<Ev>> },
 	Field { hdr: String, es: Option<Vec<Ev>> },
 	Method { hdr: String, es: Option<Vec<Ev>> },
@@ -358,7 +374,7 @@ impl MethodVisitor for RecMethod {
 	fn visit_unknown_attribute(&mut self, a: Self::UnknownAttribute) -> Result<()> { self.evs.push(unknown(a)); Ok(()) }
 	fn visit_code(&mut self) -> Result<Option<Self::CodeVisitor>> {
 		match &self.code {
-			Some(m) => Ok(Some(RecCode { mask: m.clone(), max: (0, 0), insns: vec![], last: None, exc: String::new(), es: vec![] })),
+			Some(m) => Ok(Some(RecCode { mask: m.clone(), max: (0, 0), insns: vec![], last: None, exc: String::new(), es: vec![], raw_exc: vec![], raw_lines: vec![], raw_lvs: vec![] })),
 			None => { self.evs.push(Ev::CodeDeclined); Ok(None) }
 		}
 	}
@@ -366,7 +382,8 @@ impl MethodVisitor for RecMethod {
 }
 
 // ---------------------------------------------------------------- code level
-pub struct RecCode { mask: Mask, max: (u16, u16), insns: Vec<(Option<Label>, Option<String>, String)>, last: Option<Label>, exc: String, es: Vec<Ev> }
+pub struct RecCode { mask: Mask, max: (u16, u16), insns: Vec<(Option<Label>, Option<String>, String)>, last: Option<Label>, exc: String, es: Vec<Ev>,
+	raw_exc: Vec<Exception>, raw_lines: Vec<Vec<(Label, u16)>>, raw_lvs: Vec<Vec<Lv>> }
 
 impl CodeVisitor for RecCode {
 	type TypeAnnotationsVisitor = Vec<TypeAnnotation<TargetInfoCode>>;
@@ -375,19 +392,22 @@ impl CodeVisitor for RecCode {
 
 	fn interests(&self) -> CodeInterests { code_interests(&self.mask) }
 	fn visit_max_stack_and_max_locals(&mut self, max_stack: u16, max_locals: u16) -> Result<()> { self.max = (max_stack, max_locals); Ok(()) }
-	fn visit_exception_table(&mut self, x: Vec<Exception>) -> Result<()> { self.exc = format!("{x:?}"); Ok(()) }
+	fn visit_exception_table(&mut self, x: Vec<Exception>) -> Result<()> { self.exc = format!("{x:?}"); self.raw_exc = x; Ok(()) }
 	fn visit_instruction(&mut self, label: Option<Label>, frame: Option<StackMapData>, instruction: Instruction) -> Result<()> {
 		self.insns.push((label, frame.map(|f| format!("{f:?}")), format!("{instruction:?}")));
 		Ok(())
 	}
 	fn visit_last_label(&mut self, last_label: Label) -> Result<()> { self.last = Some(last_label); Ok(()) }
 	fn visit_line_numbers(&mut self, x: Vec<(Label, u16)>) -> Result<()> {
-		self.es.push(Ev::Deferred { slot: "line_number_table", items: x.iter().map(|e| (0, format!("{e:?}"))).collect(), optional: false });
+		// rows: index into raw_lines, resolved in into_event (the instructions may be visited after the tables)
+		self.es.push(Ev::Deferred { slot: "line_number_table", items: x.iter().map(|e| (0, format!("{e:?}"))).collect(), optional: false, rows: vec![] });
+		self.raw_lines.push(x);
 		Ok(())
 	}
 	fn visit_local_variables(&mut self, x: Vec<Lv>) -> Result<()> {
 		// the reader builds one entry per LocalVariableTable row (descriptor) and one per LocalVariableTypeTable row (signature)
-		self.es.push(Ev::Deferred { slot: "local_variable_table", items: x.iter().map(|e| (if e.descriptor.is_some() { 1 } else { 2 }, format!("{e:?}"))).collect(), optional: false });
+		self.es.push(Ev::Deferred { slot: "local_variable_table", items: x.iter().map(|e| (if e.descriptor.is_some() { 1 } else { 2 }, format!("{e:?}"))).collect(), optional: false, rows: vec![] });
+		self.raw_lvs.push(x);
 		Ok(())
 	}
 	fn visit_type_annotations(self, visible: bool) -> Result<(Self::TypeAnnotationsResidual, Self::TypeAnnotationsVisitor)> { Ok(((self, visible), Vec::new())) }
@@ -407,12 +427,37 @@ impl RecCode {
 		if let Some(l) = &self.last { names.insert(format!("{l:?}"), "@end".to_owned()); }
 		let fix = |s: &str| relabel(s, &names);
 		let insns = self.insns.iter().map(|(l, f, t)| Insn { label: l.is_some(), frame: f.as_ref().map(|f| fix(f)), text: fix(t) }).collect();
+		// labels as positions: the instruction they are attached to / the end of the code
+		let mut pos: HashMap<Label, Pos> = HashMap::new();
+		for (i, (l, _, _)) in self.insns.iter().enumerate() { if let Some(l) = l { pos.insert(*l, Pos::At(i)); } }
+		if let Some(l) = &self.last { pos.insert(*l, Pos::End); }
+		let at = |l: &Label| pos.get(l).copied().unwrap_or(Pos::Unknown);
+		// LabelRange keeps its two labels crate-private: they are read off its debug text (`Label { id: N }` twice)
+		let by_id: HashMap<String, Pos> = pos.iter().map(|(l, p)| (format!("{l:?}"), *p)).collect();
+		let range = |r: &duke::tree::method::code::LabelRange| -> (Pos, Pos) {
+			let t = format!("{r:?}");
+			let ls: Vec<Pos> = t.match_indices("Label { id: ").map(|(i, _)| { let e = t[i..].find('}').map(|k| i + k + 1).unwrap_or(t.len()); by_id.get(&t[i..e]).copied().unwrap_or(Pos::Unknown) }).collect();
+			(ls.first().copied().unwrap_or(Pos::Unknown), ls.get(1).copied().unwrap_or(Pos::Unknown))
+		};
+		let (mut lines, mut lvs) = (self.raw_lines.iter(), self.raw_lvs.iter());
 		let es = self.es.into_iter().map(|e| match e {
 			Ev::Attr { name, raw, content } => Ev::Attr { name, raw, content: fix(&content) },
-			Ev::Deferred { slot, items, optional } => Ev::Deferred { slot, items: items.into_iter().map(|(k, t)| (k, fix(&t))).collect(), optional },
+			Ev::Deferred { slot, items, optional, .. } => {
+				let rows: Vec<RowN> = if slot == "line_number_table" {
+					lines.next().map(|x| x.iter().map(|(l, n)| RowN::Line(at(l), *n)).collect()).unwrap_or_default()
+				} else {
+					lvs.next().map(|x| x.iter().map(|lv| {
+						let (start, end) = range(&lv.range);
+						let desc = match (&lv.descriptor, &lv.signature) { (Some(d), _) => cksum(&d.as_inner().to_modified_utf8()), (None, Some(g)) => cksum(&g.as_inner().to_modified_utf8()), _ => 0 };
+						RowN::Var { kind: if lv.descriptor.is_some() { 1 } else { 2 }, start, end, name: cksum(&lv.name.as_inner().to_modified_utf8()), desc, index: lv.index.index }
+					}).collect()).unwrap_or_default()
+				};
+				Ev::Deferred { slot, items: items.into_iter().map(|(k, t)| (k, fix(&t))).collect(), optional, rows }
+			}
 			e => e,
 		}).collect();
-		Ev::Code { max_stack: self.max.0, max_locals: self.max.1, insns, last_label: self.last.is_some(), exc: fix(&self.exc), es }
+		let exc_rows = self.raw_exc.iter().map(|x| RowN::Exc(at(&x.start), at(&x.end), at(&x.handler), x.catch.is_some())).collect();
+		Ev::Code { max_stack: self.max.0, max_locals: self.max.1, insns, last_label: self.last.is_some(), exc: fix(&self.exc), exc_rows, es }
 	}
 }
 
@@ -435,5 +480,147 @@ fn relabel(s: &str, names: &HashMap<String, String>) -> String {
 		}
 	}
 	out.push_str(rest);
+	out
+}
+
+// ---------------------------------------------------------------- duke's ready-made visitors: SimpleClassVisitor, (), Infallible
+/// A class visitor written against `SimpleClassVisitor` (interests = fields + methods only; the blanket impl answers every
+/// other class-level call itself): fields through duke's tree builder, methods through the recording method visitor.
+pub struct SimpleRec { desc: VDesc, pub evs: Vec<Ev>, nfield: usize, nmethod: usize, pending: Vec<String> }
+
+impl duke::visitor::simple::class::SimpleClassVisitor for SimpleRec {
+	type FieldVisitor = Field;
+	type MethodVisitor = RecMethod;
+	fn visit_field(&mut self, access: FieldAccess, name: FieldName, descriptor: FieldDescriptor) -> Result<Option<Field>> {
+		let k = self.nfield; self.nfield += 1;
+		let hdr = format!("{access:?} {name:?} {descriptor:?}");
+		if self.desc.field(k) { self.pending.push(hdr); Ok(Some(Field::new(access, name, descriptor))) }
+		else { self.evs.push(Ev::Field { hdr, es: None }); Ok(None) }
+	}
+	fn finish_field(&mut self, f: Field) -> Result<()> {
+		let hdr = self.pending.pop().unwrap_or_default();
+		self.evs.push(Ev::Field { hdr, es: Some(events_of_field(&f)) });
+		Ok(())
+	}
+	fn visit_method(&mut self, access: MethodAccess, name: MethodName, descriptor: MethodDescriptor) -> Result<Option<RecMethod>> {
+		let k = self.nmethod; self.nmethod += 1;
+		let hdr = format!("{access:?} {name:?} {descriptor:?}");
+		match self.desc.method(k) {
+			Some(mask) => Ok(Some(RecMethod { mask, code: self.desc.code(k), hdr, evs: vec![] })),
+			None => { self.evs.push(Ev::Method { hdr, es: None }); Ok(None) }
+		}
+	}
+	fn finish_method(&mut self, m: RecMethod) -> Result<()> { self.evs.push(Ev::Method { hdr: m.hdr, es: Some(m.evs) }); Ok(()) }
+}
+
+pub struct SimpleMulti { pub desc: VDesc, pub result: Option<Vec<Ev>> }
+impl MultiClassVisitor for SimpleMulti {
+	type ClassVisitor = SimpleRec;
+	type ClassResidual = SimpleMulti;
+	fn visit_class(self, _: Version, _: ClassAccess, _: ObjClassName, _: Option<ObjClassName>, _: Vec<ObjClassName>)
+			-> Result<ControlFlow<Self, (Self::ClassResidual, Self::ClassVisitor)>> {
+		let cv = SimpleRec { desc: self.desc.clone(), evs: vec![], nfield: 0, nmethod: 0, pending: vec![] };
+		Ok(ControlFlow::Continue((self, cv)))
+	}
+	fn finish_class(mut this: Self::ClassResidual, cv: Self::ClassVisitor) -> Result<Self> { this.result = Some(cv.evs); Ok(this) }
+}
+
+/// The leanest visitor the public API allows: fields never looked at (`Infallible`), methods through a visitor that voids
+/// annotations / type annotations / unknown attributes into `()`, keeps the default `visit_instruction`, and records only
+/// what Code delivers besides the instructions: max_stack / max_locals, the exception table and the tables visited after the loop.
+pub struct LiteClass { desc: VDesc, pub methods: Vec<Option<Vec<Ev>>>, nmethod: usize }
+
+impl duke::visitor::simple::class::SimpleClassVisitor for LiteClass {
+	type FieldVisitor = std::convert::Infallible;
+	type MethodVisitor = LiteMethod;
+	fn visit_field(&mut self, _: FieldAccess, _: FieldName, _: FieldDescriptor) -> Result<Option<std::convert::Infallible>> { Ok(None) }
+	fn finish_field(&mut self, f: std::convert::Infallible) -> Result<()> { match f {} }
+	fn visit_method(&mut self, _: MethodAccess, _: MethodName, _: MethodDescriptor) -> Result<Option<LiteMethod>> {
+		let k = self.nmethod; self.nmethod += 1;
+		match self.desc.method(k) {
+			Some(mask) => Ok(Some(LiteMethod { mask, code: self.desc.code(k), codes: vec![] })),
+			None => { self.methods.push(None); Ok(None) }
+		}
+	}
+	fn finish_method(&mut self, m: LiteMethod) -> Result<()> { self.methods.push(Some(m.codes)); Ok(()) }
+}
+pub struct LiteMulti { pub desc: VDesc, pub result: Option<Vec<Option<Vec<Ev>>>> }
+impl MultiClassVisitor for LiteMulti {
+	type ClassVisitor = LiteClass;
+	type ClassResidual = LiteMulti;
+	fn visit_class(self, _: Version, _: ClassAccess, _: ObjClassName, _: Option<ObjClassName>, _: Vec<ObjClassName>)
+			-> Result<ControlFlow<Self, (Self::ClassResidual, Self::ClassVisitor)>> {
+		let cv = LiteClass { desc: self.desc.clone(), methods: vec![], nmethod: 0 };
+		Ok(ControlFlow::Continue((self, cv)))
+	}
+	fn finish_class(mut this: Self::ClassResidual, cv: Self::ClassVisitor) -> Result<Self> { this.result = Some(cv.methods); Ok(this) }
+}
+
+pub struct LiteMethod { mask: Mask, code: Option<Mask>, codes: Vec<Ev> }
+impl MethodVisitor for LiteMethod {
+	type AnnotationsVisitor = ();
+	type AnnotationsResidual = Self;
+	type TypeAnnotationsVisitor = ();
+	type TypeAnnotationsResidual = Self;
+	type AnnotationDefaultVisitor = ();
+	type AnnotationDefaultResidual = Self;
+	type CodeVisitor = LiteCode;
+	type UnknownAttribute = ();
+	fn interests(&self) -> MethodInterests { method_interests(&self.mask) }
+	fn visit_deprecated_and_synthetic_attribute(&mut self, _: bool, _: bool) -> Result<()> { Ok(()) }
+	fn visit_exceptions(&mut self, _: Vec<ClassName>) -> Result<()> { Ok(()) }
+	fn visit_signature(&mut self, _: MethodSignature) -> Result<()> { Ok(()) }
+	fn visit_annotations(self, _: bool) -> Result<(Self, ())> { Ok((self, ())) }
+	fn finish_annotations(this: Self, _: ()) -> Result<Self> { Ok(this) }
+	fn visit_type_annotations(self, _: bool) -> Result<(Self, ())> { Ok((self, ())) }
+	fn finish_type_annotations(this: Self, _: ()) -> Result<Self> { Ok(this) }
+	fn visit_annotation_default(self) -> Result<(Self, ())> { Ok((self, ())) }
+	fn finish_annotation_default(this: Self, _: ()) -> Result<Self> { Ok(this) }
+	fn visit_parameters(&mut self, _: Vec<MethodParameter>) -> Result<()> { Ok(()) }
+	fn visit_annotable_parameter_count(&mut self) {}
+	fn visit_parameter_annotation(&mut self) {}
+	fn visit_unknown_attribute(&mut self, _: ()) -> Result<()> { Ok(()) }
+	fn visit_code(&mut self) -> Result<Option<LiteCode>> {
+		Ok(self.code.as_ref().map(|m| LiteCode { mask: m.clone(), max: (0, 0), exc: String::new(), es: vec![] }))
+	}
+	fn finish_code(&mut self, c: LiteCode) -> Result<()> {
+		self.codes.push(Ev::Code { max_stack: c.max.0, max_locals: c.max.1, insns: vec![], last_label: false, exc: c.exc, exc_rows: vec![], es: c.es });
+		Ok(())
+	}
+}
+pub struct LiteCode { mask: Mask, max: (u16, u16), exc: String, es: Vec<Ev> }
+impl CodeVisitor for LiteCode {
+	type TypeAnnotationsVisitor = ();
+	type TypeAnnotationsResidual = Self;
+	type UnknownAttribute = ();
+	fn interests(&self) -> CodeInterests { code_interests(&self.mask) }
+	fn visit_max_stack_and_max_locals(&mut self, a: u16, b: u16) -> Result<()> { self.max = (a, b); Ok(()) }
+	fn visit_exception_table(&mut self, x: Vec<Exception>) -> Result<()> { self.exc = strip_labels(&format!("{x:?}")); Ok(()) }
+	// visit_instruction: the trait's default
+	fn visit_last_label(&mut self, _: Label) -> Result<()> { Ok(()) }
+	fn visit_line_numbers(&mut self, x: Vec<(Label, u16)>) -> Result<()> {
+		self.es.push(Ev::Deferred { slot: "line_number_table", items: x.iter().map(|e| (0, strip_labels(&format!("{e:?}")))).collect(), optional: false, rows: vec![] }); Ok(())
+	}
+	fn visit_local_variables(&mut self, x: Vec<Lv>) -> Result<()> {
+		self.es.push(Ev::Deferred { slot: "local_variable_table", items: x.iter().map(|e| (if e.descriptor.is_some() { 1 } else { 2 }, strip_labels(&format!("{e:?}")))).collect(), optional: false, rows: vec![] }); Ok(())
+	}
+	fn visit_type_annotations(self, _: bool) -> Result<(Self, ())> { Ok((self, ())) }
+	fn finish_type_annotations(this: Self, _: ()) -> Result<Self> { Ok(this) }
+	fn visit_unknown_attribute(&mut self, _: ()) -> Result<()> { Ok(()) }
+}
+
+/// every mention of a label (`Label { id: 7 }`, or `@3` / `@end` / `@?7` after relabelling) becomes `@_`:
+/// a visitor that does not look at the instructions cannot tell where a label sits
+pub fn strip_labels(s: &str) -> String {
+	let s = relabel(s, &HashMap::new());
+	let mut out = String::with_capacity(s.len());
+	let mut it = s.chars().peekable();
+	while let Some(c) = it.next() {
+		if c == '@' {
+			out.push_str("@_");
+			if it.peek() == Some(&'?') { it.next(); }
+			while matches!(it.peek(), Some(d) if d.is_ascii_alphanumeric()) { it.next(); }
+		} else { out.push(c); }
+	}
 	out
 }
